@@ -12,6 +12,8 @@ pub struct Parser<'a> {
     current: Token,
     /// Source string for error reporting.
     source: &'a str,
+    /// Current nesting depth of recursive grammar rules (see `enter_nested`).
+    nesting_depth: usize,
 }
 
 impl<'a> Parser<'a> {
@@ -20,10 +22,25 @@ impl<'a> Parser<'a> {
         let mut lexer = Lexer::new(source);
         let current = lexer.next_token();
         Self {
+            nesting_depth: 0,
             lexer,
             current,
             source,
         }
+    }
+
+    /// Maximum nesting depth of recursive grammar rules.
+    const MAX_NESTING_DEPTH: usize = 128;
+
+    /// Enters a recursive grammar rule. Recursive descent uses one chain of stack
+    /// frames per nesting level, so input that nests too deeply is rejected with an
+    /// error instead of overflowing the stack.
+    fn enter_nested(&mut self) -> Result<()> {
+        if self.nesting_depth >= Self::MAX_NESTING_DEPTH {
+            return Err(self.error("Query nesting is too deep"));
+        }
+        self.nesting_depth += 1;
+        Ok(())
     }
 
     /// Parses the entire query.
@@ -631,6 +648,13 @@ impl<'a> Parser<'a> {
     }
 
     fn parse_graph_pattern_element(&mut self) -> Result<GraphPattern> {
+        self.enter_nested()?;
+        let result = self.parse_graph_pattern_element_inner();
+        self.nesting_depth -= 1;
+        result
+    }
+
+    fn parse_graph_pattern_element_inner(&mut self) -> Result<GraphPattern> {
         match self.current.kind {
             TokenKind::Optional => {
                 self.advance();
@@ -937,6 +961,18 @@ impl<'a> Parser<'a> {
         predicate: &PropertyPath,
         triples: &mut Vec<TriplePattern>,
     ) -> Result<()> {
+        self.enter_nested()?;
+        let result = self.parse_object_list_inner(subject, predicate, triples);
+        self.nesting_depth -= 1;
+        result
+    }
+
+    fn parse_object_list_inner(
+        &mut self,
+        subject: &TripleTerm,
+        predicate: &PropertyPath,
+        triples: &mut Vec<TriplePattern>,
+    ) -> Result<()> {
         loop {
             let object = self.parse_object(triples)?;
             triples.push(TriplePattern {
@@ -977,6 +1013,13 @@ impl<'a> Parser<'a> {
     }
 
     fn parse_var_or_term(&mut self) -> Result<TripleTerm> {
+        self.enter_nested()?;
+        let result = self.parse_var_or_term_inner();
+        self.nesting_depth -= 1;
+        result
+    }
+
+    fn parse_var_or_term_inner(&mut self) -> Result<TripleTerm> {
         match self.current.kind {
             TokenKind::Variable => {
                 let name = self.expect_variable_name()?;
@@ -1103,6 +1146,13 @@ impl<'a> Parser<'a> {
     }
 
     fn parse_path_primary(&mut self) -> Result<PropertyPath> {
+        self.enter_nested()?;
+        let result = self.parse_path_primary_inner();
+        self.nesting_depth -= 1;
+        result
+    }
+
+    fn parse_path_primary_inner(&mut self) -> Result<PropertyPath> {
         match self.current.kind {
             TokenKind::Iri => {
                 let iri = self.parse_iri()?;
@@ -1306,6 +1356,13 @@ impl<'a> Parser<'a> {
     // ==================== Expressions ====================
 
     fn parse_expression(&mut self) -> Result<Expression> {
+        self.enter_nested()?;
+        let result = self.parse_expression_inner();
+        self.nesting_depth -= 1;
+        result
+    }
+
+    fn parse_expression_inner(&mut self) -> Result<Expression> {
         self.parse_conditional_or_expression()
     }
 
